@@ -31,8 +31,9 @@ import (
 // that counts End()/late calls and sees the context handed to tracer.Start.
 //
 //	cfg <tracing> <metrics> <recexc> <tc|tcb|none> <always|never|parent>
-//	start <meta>                  OnDispatchStart; meta = nil | empty | x<key>:x<val>,...
-//	end <k> <stats 0/1> <err 0|1|2>   OnDispatchEnd of dispatch k with its own token (1 = plain error, 2 = *RpcError)
+//	start <meta> [<method> <mtype> <rid> <server>]   OnDispatchStart; meta = nil | empty | x<key>:x<val>,...; the rest of the
+//	                              DispatchInfo varies freely (the model does not get it: it must not matter)
+//	end <k> <stats 0/1> <err 0|1|2> [<http> <cancelled>]   OnDispatchEnd of dispatch k with its own token (1 = plain error, 2 = *RpcError)
 //	endnil <k> <stats> <err>      OnDispatchEnd with a foreign (nil) token
 
 func init() {
@@ -40,6 +41,7 @@ func init() {
 		ID: "C43",
 		Rule: "random interleavings of 1..8 dispatches (some left in flight, occasional foreign-token and repeated ends) on hooks with every " +
 			"tracing/metrics/record-exceptions toggle, propagator TraceContext / TraceContext+Baggage / none, samplers always/never/parent-based; " +
+			"method names / method types (unary, stream, other) / request ids / server ids / HTTP status / cancelled flag varied independently per dispatch; " +
 			"transport metadata nil/empty/with valid traceparents (flags 00..03, other versions with extra fields), near-miss invalid ones " +
 			"(upper case, wrong lengths, zero ids, version ff, reserved flags, extra fields), tracestate valid/invalid, unrelated and wrong-case keys; " +
 			"thorough adds every interleaving of 3 dispatches x outcomes. non-trivial = at least one start and one end; distinct = distinct scripts",
@@ -153,6 +155,16 @@ func c43Meta(r *Rng) string {
 	return strings.Join(pairs, ",")
 }
 
+// c43InfoTok: the rest of the DispatchInfo (method, method type, request id, server id) — none of it
+// may influence whether the span is ended, its status, its parent or the counter's status.
+func c43InfoTok(r *Rng) string {
+	return fmt.Sprintf("%s %s %s %s",
+		XS(Pick(r, []string{"echo", "produce", "__describe__", "", "ünï", "a b", "exchange"})),
+		Pick(r, []string{"unary", "unary", "stream", "stream", "other"}),
+		XS(Pick(r, []string{"", "", "req-1", "0123456789abcdef0123456789abcdef"})),
+		XS(Pick(r, []string{"srv", "", "server-2"})))
+}
+
 func c43Cfg(r *Rng) string {
 	b := func(p int) int {
 		if r.Chance(p) {
@@ -174,7 +186,7 @@ func c43Gen(g *Gen) {
 		finished := []int{}
 		for started < nd || (len(open) > 0 && r.Chance(85)) {
 			if started < nd && (len(open) == 0 || r.Chance(50)) {
-				lines = append(lines, "start "+c43Meta(r))
+				lines = append(lines, "start "+c43Meta(r)+" "+c43InfoTok(r))
 				open = append(open, started)
 				started++
 				continue
@@ -189,7 +201,7 @@ func c43Gen(g *Gen) {
 				lines = append(lines, fmt.Sprintf("endnil %d %d %d", k, stats, err))
 				continue
 			}
-			lines = append(lines, fmt.Sprintf("end %d %d %d", k, stats, err))
+			lines = append(lines, fmt.Sprintf("end %d %d %d %d %d", k, stats, err, Pick(r, []int{0, 0, 200, 400, 500}), Pick(r, []int{0, 0, 0, 1})))
 			open = append(open[:j], open[j+1:]...)
 			finished = append(finished, k)
 			if r.Chance(5) {
@@ -255,6 +267,7 @@ type c43Env struct {
 	ctxs     []context.Context
 	spanOf   []int // dispatch -> index into spans, -1 when no span was started
 	metas    []map[string]string
+	infos    []vgirpc.DispatchInfo
 	finished map[int]bool
 	cntOK    int64
 	cntErr   int64
@@ -457,20 +470,40 @@ func c43Exec(c *Case) {
 			continue
 		}
 		switch {
-		case f[0] == "start" && len(f) == 2:
+		case f[0] == "start" && (len(f) == 2 || len(f) == 6):
 			meta, ok := c43ParseMeta(f[1])
 			if !ok {
 				c.Out(l, "bad-op")
 				continue
 			}
-			e.start(l, f[1], meta)
-		case (f[0] == "end" || f[0] == "endnil") && len(f) == 4:
+			base := vgirpc.DispatchInfo{Method: fmt.Sprintf("m%d", len(e.toks)%3), MethodType: vgirpc.DispatchMethodUnary, ServerID: "srv",
+				RequestID: fmt.Sprintf("r%d", len(e.toks))}
+			if len(f) == 6 {
+				m, ok1 := UnX(f[2])
+				rid, ok2 := UnX(f[4])
+				sid, ok3 := UnX(f[5])
+				if !ok1 || !ok2 || !ok3 {
+					c.Out(l, "bad-op")
+					continue
+				}
+				base = vgirpc.DispatchInfo{Method: string(m), MethodType: f[3], ServerID: string(sid), RequestID: string(rid)}
+				if f[3] == "stream" {
+					base.StreamID = "00000000000000000000000000000001"
+				}
+			}
+			e.start(l, f[1], meta, base)
+		case (f[0] == "end" || f[0] == "endnil") && (len(f) == 4 || len(f) == 6):
 			k, err := strconv.Atoi(f[1])
 			if err != nil || k < 0 {
 				c.Out(l, "bad-op")
 				continue
 			}
-			e.end(l, f[0] == "endnil", k, f[2] == "1", f[3])
+			httpStatus, cancelled := 0, false
+			if len(f) == 6 {
+				httpStatus, _ = strconv.Atoi(f[4])
+				cancelled = f[5] == "1"
+			}
+			e.end(l, f[0] == "endnil", k, f[2] == "1", f[3], httpStatus, cancelled)
 		default:
 			c.Out(l, "bad-op")
 		}
@@ -480,17 +513,11 @@ func c43Exec(c *Case) {
 	}
 }
 
-func (e *c43Env) start(l, metaTok string, meta map[string]string) {
+func (e *c43Env) start(l, metaTok string, meta map[string]string, info vgirpc.DispatchInfo) {
 	c := e.c
-	k := len(e.toks)
-	info := vgirpc.DispatchInfo{
-		Method:            fmt.Sprintf("m%d", k%3),
-		MethodType:        vgirpc.DispatchMethodUnary,
-		ServerID:          "srv",
-		RequestID:         fmt.Sprintf("r%d", k),
-		TransportMetadata: meta,
-		Auth:              vgirpc.Anonymous(),
-	}
+	info.TransportMetadata = meta
+	info.Auth = vgirpc.Anonymous()
+	e.infos = append(e.infos, info)
 	nBefore := len(e.spans)
 	ctx, tok := e.hook.OnDispatchStart(context.Background(), info)
 	e.toks = append(e.toks, tok)
@@ -556,7 +583,7 @@ func (e *c43Env) start(l, metaTok string, meta map[string]string) {
 	c.Out(fmt.Sprintf("start %s %s", c43B(rec), metaTok), fmt.Sprintf("tok=%s parent=%s", tokS, parS))
 }
 
-func (e *c43Env) end(l string, foreign bool, k int, hasStats bool, errTok string) {
+func (e *c43Env) end(l string, foreign bool, k int, hasStats bool, errTok string, httpStatus int, cancelled bool) {
 	c := e.c
 	if k >= len(e.toks) || (!foreign && e.finished[k]) {
 		// would break the hook contract (C37): not performed
@@ -575,8 +602,8 @@ func (e *c43Env) end(l string, foreign bool, k int, hasStats bool, errTok string
 	if hasStats {
 		stats = &vgirpc.CallStatistics{InputBatches: 1, OutputBatches: 2, InputRows: 3, OutputRows: 4, InputBytes: 5, OutputBytes: 6}
 	}
-	info := vgirpc.DispatchInfo{Method: fmt.Sprintf("m%d", k%3), MethodType: vgirpc.DispatchMethodUnary, ServerID: "srv",
-		RequestID: fmt.Sprintf("r%d", k), TransportMetadata: e.metas[k], Auth: vgirpc.Anonymous()}
+	info := e.infos[k]
+	info.HTTPStatus, info.Cancelled = httpStatus, cancelled
 	var tok vgirpc.HookToken = e.toks[k]
 	if foreign {
 		tok = nil
